@@ -378,13 +378,21 @@ func runHandleChain(op string) string {
 	return "ok " + strconv.Itoa(len(log))
 }
 
+// after three failing chains of a run the rest are skipped: a library that hangs costs 30 s per chain
+var handleChainFailures int
+
 func handleChainCase(rn *runner, cr *rng, steps int, note string) {
+	if handleChainFailures >= 3 {
+		cr.u64()
+		return
+	}
 	op := fmt.Sprintf("handle %d %d", cr.u64(), steps)
 	out := runHandleChain(op)
 	rn.rep.Evaluations++
 	rn.rep.Distribution["handle-chain"]++
 	rn.seen["handle-chain"] = true
 	if !strings.HasPrefix(out, "ok ") {
+		handleChainFailures++
 		rn.disagree(disagreement{Kind: "spec", Ops: []string{op}, At: 0, Impl: out, Other: "ok <every call returns; accepted documents read as a fresh parse>", Note: note})
 	}
 }
